@@ -63,6 +63,17 @@ def correspondence(ctx, model_available=True):
     for cls in oc.real_classes_with_bitv():
         for toks in oc.valid_instances(cls, rng, limit=40 if quick else None):
             insts.append((cls.__name__, toks))
+    # neighbouring immediates of the byte fields, in one process (seed C05f: a cache of assembled words keyed by a
+    # hash, and hash(-1) == hash(-2) in CPython)
+    for name in ("SETLO", "SETHI"):
+        for imm in (-1, -2, -3, 255, 254, 253, -128, -127, 127, 128):
+            insts.append((name, [("REGISTER", 1), ("INT", imm)]))
+    for name in ("BRR", "BZR", "BNVR"):
+        for imm in (-1, -2, -3, 255, 254, -128, 127):
+            insts.append((name, [("INT", imm)]))
+    for name in ("INC", "DEC"):
+        for imm in (1, 2, 63, 64):
+            insts.append((name, [("REGISTER", 2), ("INT", imm)]))
     # other assemble forms: data, debugging, OPCODE
     other = [("INTEGER", [("INT", v)]) for v in (0, 1, -1, 255, 256, 300, -32768, 65535, 32767)]
     other += [("DSKIP", [("INT", n)]) for n in (0, 1, 3, 100)]
